@@ -26,3 +26,11 @@ VARIANTS = [
     silent("c20-isinstance-guard",
            [(MA, "        try:\n            return (\n                self.name == other.name\n                and self.parameters == other.parameters\n                and self.body == other.body\n            )\n        except AttributeError:\n            return False", "        if not isinstance(other, Macro):\n            return False\n        return (\n            self.name == other.name\n            and self.parameters == other.parameters\n            and self.body == other.body\n        )")], P),
 ]
+
+RG20 = "src/jaqalpaq/core/register.py"
+VARIANTS += [
+    # reverting fix 7f8b052
+    fire("c20-register-eq-case-split-one-sided",
+         [(RG20, "            if self.fundamental != other.fundamental:\n                # A register never equals an alias, even one of the same size\n                return False\n", "")],
+         ("C20.7", "Register:__eq__:case-split:fundamental"), ("C20",)),
+]
